@@ -184,6 +184,12 @@ func judgeAll(c *lib.Ctx, dir string, hists []History, per int) error {
 	lib.Parallel(len(batches), 2, func(bi int) {
 		hs := batches[bi].hs
 		for len(hs) > 0 {
+			// each rejected history costs two searches over a history that has NO linearization (the
+			// expensive case); 12 reported violations decide the run, the rest is left unjudged
+			if c.Violations() >= 12 {
+				c.Inc("histories_not_judged_after_12_violations", int64(len(hs)))
+				return
+			}
 			bad, err := validate(c, dir, fmt.Sprintf("TraceDaemonLin(V %d)", bi), hs)
 			if err != nil {
 				mu.Lock()
